@@ -57,10 +57,10 @@ def run_model(cases, shards=NPROC, timeout=3000):
     return m, s
 
 
-def coq_sample(cases, model_out, spec_out, notes, limit=160, max_len=4000, shards=8):
+def coq_sample(cases, model_out, spec_out, notes, limit=160, max_len=4000, shards=8, keep=None):
     """re-evaluate a deterministic sample of the cases inside Coq (vm_compute of the very function that was
     extracted) and compare with the output of the OCaml driver: extraction is cross-checked, not only trusted"""
-    idx = [i for i in range(len(cases)) if len(cases[i]) <= max_len]
+    idx = [i for i in range(len(cases)) if len(cases[i]) <= max_len and (keep is None or keep(cases[i]))]
     if not idx: return 0, 0
     step = max(1, len(idx) // limit)
     picked = idx[::step][:limit]
@@ -75,7 +75,7 @@ def coq_sample(cases, model_out, spec_out, notes, limit=160, max_len=4000, shard
             lines.append("Eval vm_compute in (both [%s])." % "; ".join(str(b) for b in cases[i].encode()))
         f = os.path.join(d, "cases%d.v" % g)
         open(f, "w").write("\n".join(lines) + "\n")
-        procs.append(subprocess.Popen(["timeout", "900", "coqc", "-noglob", "-Q", os.path.join(COQ, "theories"), "KT", f],
+        procs.append(subprocess.Popen(["bash", "-c", "ulimit -s unlimited 2>/dev/null; exec timeout 900 coqc -noglob -Q %s KT %s" % (os.path.join(COQ, "theories"), f)],
                                       cwd=d, stdout=subprocess.PIPE, stderr=subprocess.STDOUT, text=True))
     agree = 0
     for grp, p in zip(groups, procs):
